@@ -39,12 +39,23 @@ ASSUMPTIONS = [
     'transactions overlapping or following the damaged range may be lost; '
     'records whose data lies in the damaged range are not compared',
 ]
-SHRINK = ['ops']
+SHRINK = ['ops', ('inner', 'ops')]
 SRC = '/sim/Data.fs'
 
 
 def gen(seed, tier):
     r = random.Random(seed)
+    if r.random() < 0.12:
+        # blob contents: a blob program (C13's machine: create, rewrite,
+        # undo, pack ...) on a blob-enabled FileStorage, then copied
+        from . import c13
+        inner = c13.gen(ctx.subseed(seed, 'blob'), tier)
+        inner['kind'] = 'file'
+        inner['copy'] = True
+        return {'arm': 'blobcopy', 'inner': inner, 'kind': 'file',
+                'ops': [], 'base_ops': [], 'how': 'copyTransactionsFrom',
+                'bufsize': inner['bufsize'], 'tick': 0.37, 'tier': tier,
+                'nvariants': 0}
     arm = r.choice(('copy', 'copy', 'recover', 'recover', 'recover'))
     kind = 'file'
     if arm == 'copy':
@@ -410,7 +421,25 @@ def _close_leftovers(fs):
     fs.locks.clear()
 
 
+def run_blobcopy(case):
+    from . import c13
+    inner = dict(case['inner'])
+    inner['seed'] = case['seed']
+    res = c13.run(inner)
+    # violations of the blob program itself belong to C13; the copy's are
+    # C17's
+    res['violations'] = [v for v in res['violations']
+                         if v['oracle'].startswith('blob-copy')]
+    res['stats'] = dict(res['stats'])
+    res['stats']['arm:blobcopy'] = 1
+    res['keys'] = ['blobcopy|' + k for k in res['keys']]
+    res['sample'] = {'arm': 'blobcopy', 'ops': case['inner']['ops']}
+    return res
+
+
 def run(case):
+    if case['arm'] == 'blobcopy':
+        return run_blobcopy(case)
     if case['arm'] == 'copy':
         return run_copy(case)
     return run_recover(case)
@@ -422,7 +451,8 @@ LEVEL_TEXT = ('seeded search over source histories; the copy arm runs the '
               'data file and on seeded damaged variants under a raw-I/O '
               'step budget (termination) and compares the output, parsed '
               'independently, with the input.')
-LEVEL_NOTE = ('blob contents are covered by C13; damage = one byte range '
+LEVEL_NOTE = ('blob contents: a blobcopy arm runs C13\'s blob programs and '
+              'compares every blob revision\'s file in the copy; damage = one byte range '
               'or one truncation per variant, 24 variants per history in '
               'quick (200 in thorough); trusted: fsparse, reference model')
 TECHNIQUE = ('deterministic simulation: seeded histories, injected damage '
